@@ -10,6 +10,11 @@
 // Non-trivial (evidence rule): >= 2 frames, at least one frame shorter than the processor's memory (history / block /
 // averaging length; recursive processors - tuner, AGC, dynamics, adaptive filters - have unbounded memory), and a
 // reference output that is not identically zero.
+//
+// Segmented variants (adaptive filters whose coefficient lock is switched at stream positions, one FftFilter / Agc object
+// fed real and complex segments in turn): the switch positions are part of the parameter point, every framing is refined
+// so that it has a boundary at each of them, and the reference is the coarsest such framing (one call per segment) of a
+// fresh instance - "one call on the whole stream" does not exist for these.
 #include "kit/num.h"
 #include <dsplib.h>
 #include "ma-filter.h"   // private header (lib/), the build adds -I/repo/lib
@@ -25,12 +30,14 @@ namespace {
 // ------------------------------------------------------------------------------------------- processors
 enum Proc {
     P_FIRR, P_FIRC, P_FFTR, P_FFTC, P_DECIM, P_INTERP, P_RATECONV, P_RESAMPLER, P_DELAYR, P_DELAYC, P_MEDIAN, P_MAR, P_MAC,
-    P_HILBERT, P_TUNER, P_AGCR, P_AGCC, P_COMP, P_LIMITER, P_GATE, P_LMSR, P_NLMSR, P_LMSC, P_NLMSC, P_RLSR, P_RLSC, P_COUNT
+    P_HILBERT, P_TUNER, P_AGCR, P_AGCC, P_COMP, P_LIMITER, P_GATE, P_LMSR, P_NLMSR, P_LMSC, P_NLMSC, P_RLSR, P_RLSC,
+    P_FFTMIX, P_AGCMIX,   // one object fed real and complex segments in turn (appended: ids of saved cases stay valid)
+    P_COUNT
 };
 const char* const PNAME[P_COUNT] = {"FirFilterR", "FirFilterC", "FftFilter-real", "FftFilter-cmplx", "FIRDecimator", "FIRInterpolator",
                                     "FIRRateConverter", "FIRResampler", "DelayReal", "DelayCmplx", "MedianFilter", "MAFilterR", "MAFilterC",
                                     "HilbertFilter", "Tuner", "Agc-real", "Agc-cmplx", "Compressor", "Limiter", "NoiseGate", "LmsFilterR-LMS",
-                                    "LmsFilterR-NLMS", "LmsFilterC-LMS", "LmsFilterC-NLMS", "RlsFilterR", "RlsFilterC"};
+                                    "LmsFilterR-NLMS", "LmsFilterC-LMS", "LmsFilterC-NLMS", "RlsFilterR", "RlsFilterC", "FftFilter-mixed", "Agc-mixed"};
 
 // One parameter point.  Meaning of i1..i3 / d1..d4 per processor: see make_spec().
 struct Params
@@ -60,7 +67,7 @@ uint64_t params_key(const Params& q) {
 }
 
 // ------------------------------------------------------------------------------------------- streams
-enum SKind { SK_REAL, SK_CMPLX, SK_REAL_XD, SK_CMPLX_XD };
+enum SKind { SK_REAL, SK_CMPLX, SK_REAL_XD, SK_CMPLX_XD, SK_BOTH };   // SK_BOTH: a real and a complex stream side by side
 enum SigCls { G_GAUSS, G_TONE, G_BURSTY, G_QUANT, G_NCLS };
 const char* const GNAME[G_NCLS] = {"gauss", "tone+noise", "bursty-levels", "quantised"};
 
@@ -108,7 +115,12 @@ Stream make_stream(int skind, int n, uint64_t seed, int cls) {
     Stream s;
     Rng r(mix(seed, 0x57EA));
     const bool cx = (skind == SK_CMPLX || skind == SK_CMPLX_XD);
-    if (!cx) {
+    if (skind == SK_BOTH) {
+        s.xr = gen_sig(r, n, cls);
+        auto a = gen_sig(r, n, cls), b = gen_sig(r, n, cls);
+        s.xc.resize(size_t(n));
+        for (int i = 0; i < n; ++i) s.xc[size_t(i)] = cmplx_t(a[size_t(i)], b[size_t(i)]);
+    } else if (!cx) {
         s.xr = gen_sig(r, n, cls);
     } else {
         auto a = gen_sig(r, n, cls), b = gen_sig(r, n, cls);
@@ -153,7 +165,7 @@ void put(Chans& o, int ch, const arr_cmplx& y) {
     for (int i = 0; i < y.size(); ++i) { d.push_back(y[i].re); d.push_back(y[i].im); }
 }
 
-// form: 0 = process(), 1 = operator(), 2 = (MAFilter only) scalar process for one-sample frames
+// form: bit 0 = operator() instead of process(); forms 2 and 3 = (MAFilter only) the scalar overload for one-sample frames
 using Feed = std::function<void(const Stream&, int lo, int hi, int form, Chans&)>;
 
 struct Spec
@@ -165,7 +177,45 @@ struct Spec
     std::vector<std::string> chans;
     std::vector<int> classes;     // admissible signal classes
     std::function<Feed()> make;   // a FRESH instance
+    bool has_op{true};            // the class has operator() next to process()
+    bool scalar_forms{false};     // the class has scalar overloads (MAFilter)
+    int cutmode{0};               // segmented variants: 1 = one switch position, 2 = periodic, 3 = irregular
+    std::function<std::vector<int>(int)> cuts;   // segmented variants: the switch positions inside a stream of n samples
 };
+
+// ---- segmented variants: stream positions at which the lock state / the sample type switches
+const char* const CUTMODE[4] = {"cuts:none", "cuts:single", "cuts:periodic", "cuts:irregular"};
+std::vector<int> make_cuts(int mode, int T, uint64_t seed, int n) {
+    std::vector<int> v;
+    if (mode == 1) { if (T < n) v.push_back(T); }
+    else if (mode == 2) { for (long p = T; p < n; p += T) v.push_back(int(p)); }
+    else if (mode == 3) {
+        Rng r(mix(seed, 0xC075));
+        for (long p = r.range(1, 2 * T - 1); p < n; p += r.range(1, 2 * T - 1)) v.push_back(int(p));
+    }
+    return v;
+}
+using CutTab = std::shared_ptr<std::vector<int>>;
+int seg_of(const CutTab& tab, int lo) { return int(std::upper_bound(tab->begin(), tab->end(), lo) - tab->begin()); }   // segment that starts at or before lo
+void set_cuts(Spec& sp, const CutTab& tab, int mode, int T, uint64_t seed) {
+    if (mode < 0 || mode > 3 || (mode && (T < 1 || T > 100000))) throw std::runtime_error("case: bad segment parameters");
+    sp.cutmode = mode;
+    if (mode) sp.cuts = [tab, mode, T, seed](int n) { *tab = make_cuts(mode, T, seed, n); return *tab; };
+}
+// every frame additionally cut at the given positions (granule 1)
+std::vector<int> refine(const std::vector<int>& frames, const std::vector<int>& cuts) {
+    std::vector<int> out;
+    size_t ic = 0;
+    int pos = 0;
+    for (int f : frames) {
+        const int end = pos + f;
+        while (ic < cuts.size() && cuts[ic] <= pos) ++ic;
+        while (ic < cuts.size() && cuts[ic] < end) { out.push_back(cuts[ic] - pos); pos = cuts[ic]; ++ic; }
+        out.push_back(end - pos);
+        pos = end;
+    }
+    return out;
+}
 
 template<class Obj, class Ctor, class Call>
 std::function<Feed()> factory(Ctor ctor, Call call) {
@@ -203,6 +253,15 @@ arr_real coef_multirate(uint64_t seed, int n) {
 }
 int ceil_div(int a, int b) { return (a + b - 1) / b; }
 
+// adaptive filters: i2 = lock schedule, i3 = its scale.  set_lock_coeffs(odd segment) before every call: unlocked warm-up
+// first (the coefficients are non-zero when the lock engages), then locked / unlocked in turn.
+CutTab lock_schedule(Spec& sp, const Params& q) {
+    const CutTab tab = std::make_shared<std::vector<int>>();
+    set_cuts(sp, tab, q.i2, q.i3, q.ps);
+    if (q.i2) sp.name += "+lock";
+    return tab;
+}
+
 Spec make_spec(const Params& q) {
     Spec sp;
     sp.name = PNAME[q.p];
@@ -214,7 +273,7 @@ Spec make_spec(const Params& q) {
         sp.make = factory<FirFilterR>([h]() { return std::make_shared<FirFilterR>(h); },
                                       [](FirFilterR& f, const Stream& s, int lo, int hi, int form, Chans& o) {
                                           const arr_real x = s.real(lo, hi);
-                                          put(o, 0, form == 1 ? f(x) : f.process(x));
+                                          put(o, 0, (form & 1) ? f(x) : f.process(x));
                                       });
         break;
     }
@@ -224,7 +283,7 @@ Spec make_spec(const Params& q) {
         sp.make = factory<FirFilterC>([h]() { return std::make_shared<FirFilterC>(h); },
                                       [](FirFilterC& f, const Stream& s, int lo, int hi, int form, Chans& o) {
                                           const arr_cmplx x = s.cmplx(lo, hi);
-                                          put(o, 0, form == 1 ? f(x) : f.process(x));
+                                          put(o, 0, (form & 1) ? f(x) : f.process(x));
                                       });
         break;
     }
@@ -240,19 +299,19 @@ Spec make_spec(const Params& q) {
         if (xc)
             sp.make = factory<FftFilter>(ctor, [](FftFilter& f, const Stream& s, int lo, int hi, int form, Chans& o) {
                 const arr_cmplx x = s.cmplx(lo, hi);
-                put(o, 0, form == 1 ? f(x) : f.process(x));
+                put(o, 0, (form & 1) ? f(x) : f.process(x));
             });
         else
             sp.make = factory<FftFilter>(ctor, [](FftFilter& f, const Stream& s, int lo, int hi, int form, Chans& o) {
                 const arr_real x = s.real(lo, hi);
-                put(o, 0, form == 1 ? f(x) : f.process(x));
+                put(o, 0, (form & 1) ? f(x) : f.process(x));
             });
         break;
     }
     case P_DECIM: {   // i1 = M, i2 = length of a custom prototype (0: default design)
         const int M = q.i1, hl = q.i2;
         const arr_real h = hl ? coef_multirate(q.ps, hl) : design_multirate_fir(1, M);
-        sp.skind = SK_REAL; sp.granule = M; sp.memory = long(M) * (ceil_div(h.size(), M) - 1); sp.chans = {"y"};
+        sp.skind = SK_REAL; sp.granule = M; sp.memory = long(M) * (ceil_div(h.size(), M) - 1); sp.chans = {"y"}; sp.has_op = false;
         sp.make = factory<FIRDecimator>([=]() { return hl ? std::make_shared<FIRDecimator>(M, h) : std::make_shared<FIRDecimator>(M); },
                                         [](FIRDecimator& f, const Stream& s, int lo, int hi, int, Chans& o) { put(o, 0, f.process(s.real(lo, hi))); });
         break;
@@ -260,7 +319,7 @@ Spec make_spec(const Params& q) {
     case P_INTERP: {   // i1 = L, i2 = custom prototype length
         const int L = q.i1, hl = q.i2;
         const arr_real h = hl ? coef_multirate(q.ps, hl) : design_multirate_fir(L, 1);
-        sp.skind = SK_REAL; sp.memory = ceil_div(h.size(), L) - 1; sp.chans = {"y"};
+        sp.skind = SK_REAL; sp.memory = ceil_div(h.size(), L) - 1; sp.chans = {"y"}; sp.has_op = false;
         sp.make = factory<FIRInterpolator>([=]() { return hl ? std::make_shared<FIRInterpolator>(L, h) : std::make_shared<FIRInterpolator>(L); },
                                            [](FIRInterpolator& f, const Stream& s, int lo, int hi, int, Chans& o) { put(o, 0, f.process(s.real(lo, hi))); });
         break;
@@ -268,7 +327,7 @@ Spec make_spec(const Params& q) {
     case P_RATECONV: {   // i1 = L, i2 = M, i3 = custom prototype length
         const int L = q.i1, M = q.i2, hl = q.i3;
         const arr_real h = hl ? coef_multirate(q.ps, hl) : design_multirate_fir(L, M);
-        sp.skind = SK_REAL; sp.granule = M; sp.memory = ceil_div(h.size(), L) - 1; sp.chans = {"y"};
+        sp.skind = SK_REAL; sp.granule = M; sp.memory = ceil_div(h.size(), L) - 1; sp.chans = {"y"}; sp.has_op = false;
         sp.make = factory<FIRRateConverter>([=]() { return hl ? std::make_shared<FIRRateConverter>(L, M, h) : std::make_shared<FIRRateConverter>(L, M); },
                                             [](FIRRateConverter& f, const Stream& s, int lo, int hi, int, Chans& o) { put(o, 0, f.process(s.real(lo, hi))); });
         break;
@@ -277,7 +336,7 @@ Spec make_spec(const Params& q) {
         const int ofs = q.i1, ifs = q.i2, hl = q.i3;
         const int g = std::gcd(ofs, ifs), L = ofs / g, M = ifs / g;
         const arr_real h = hl ? coef_multirate(q.ps, hl) : design_multirate_fir(ofs, ifs);
-        sp.skind = SK_REAL; sp.granule = M; sp.chans = {"y"};
+        sp.skind = SK_REAL; sp.granule = M; sp.chans = {"y"}; sp.has_op = false;
         if (L == M) sp.memory = 0;                                                   // bypass
         else if (L == 1) sp.memory = long(M) * (ceil_div(h.size(), M) - 1);          // decimator
         else sp.memory = ceil_div(h.size(), L) - 1;                                  // interpolator / rate converter
@@ -293,7 +352,7 @@ Spec make_spec(const Params& q) {
         sp.make = factory<DelayReal>([=]() { return init ? std::make_shared<DelayReal>(b) : std::make_shared<DelayReal>(D); },
                                      [](DelayReal& f, const Stream& s, int lo, int hi, int form, Chans& o) {
                                          const arr_real x = s.real(lo, hi);
-                                         put(o, 0, form == 1 ? f(x) : f.process(x));
+                                         put(o, 0, (form & 1) ? f(x) : f.process(x));
                                      });
         break;
     }
@@ -305,7 +364,7 @@ Spec make_spec(const Params& q) {
         sp.make = factory<DelayCmplx>([=]() { return init ? std::make_shared<DelayCmplx>(b) : std::make_shared<DelayCmplx>(D); },
                                       [](DelayCmplx& f, const Stream& s, int lo, int hi, int form, Chans& o) {
                                           const arr_cmplx x = s.cmplx(lo, hi);
-                                          put(o, 0, form == 1 ? f(x) : f.process(x));
+                                          put(o, 0, (form & 1) ? f(x) : f.process(x));
                                       });
         break;
     }
@@ -316,29 +375,29 @@ Spec make_spec(const Params& q) {
         sp.make = factory<MedianFilter>([=]() { return std::make_shared<MedianFilter>(n, iv); },
                                         [](MedianFilter& f, const Stream& s, int lo, int hi, int form, Chans& o) {
                                             const arr_real x = s.real(lo, hi);
-                                            put(o, 0, form == 1 ? f(x) : f.process(x));
+                                            put(o, 0, (form & 1) ? f(x) : f.process(x));
                                         });
         break;
     }
     case P_MAR: {   // i1 = averaging length
         const int n = q.i1;
-        sp.skind = SK_REAL; sp.memory = n; sp.chans = {"y"};
+        sp.skind = SK_REAL; sp.memory = n; sp.chans = {"y"}; sp.scalar_forms = true;
         sp.make = factory<MAFilterR>([=]() { return std::make_shared<MAFilterR>(n); },
                                      [](MAFilterR& f, const Stream& s, int lo, int hi, int form, Chans& o) {
                                          const arr_real x = s.real(lo, hi);
-                                         if (form == 2 && hi - lo == 1) { arr_real y(1); y[0] = f.process(x[0]); put(o, 0, y); }
-                                         else put(o, 0, form == 1 ? f(x) : f.process(x));
+                                         if (form >= 2 && hi - lo == 1) { arr_real y(1); y[0] = (form & 1) ? f(x[0]) : f.process(x[0]); put(o, 0, y); }
+                                         else put(o, 0, (form & 1) ? f(x) : f.process(x));
                                      });
         break;
     }
     case P_MAC: {
         const int n = q.i1;
-        sp.skind = SK_CMPLX; sp.memory = n; sp.chans = {"y"};
+        sp.skind = SK_CMPLX; sp.memory = n; sp.chans = {"y"}; sp.scalar_forms = true;
         sp.make = factory<MAFilterC>([=]() { return std::make_shared<MAFilterC>(n); },
                                      [](MAFilterC& f, const Stream& s, int lo, int hi, int form, Chans& o) {
                                          const arr_cmplx x = s.cmplx(lo, hi);
-                                         if (form == 2 && hi - lo == 1) { arr_cmplx y(1); y[0] = f.process(x[0]); put(o, 0, y); }
-                                         else put(o, 0, form == 1 ? f(x) : f.process(x));
+                                         if (form >= 2 && hi - lo == 1) { arr_cmplx y(1); y[0] = (form & 1) ? f(x[0]) : f.process(x[0]); put(o, 0, y); }
+                                         else put(o, 0, (form & 1) ? f(x) : f.process(x));
                                      });
         break;
     }
@@ -355,7 +414,7 @@ Spec make_spec(const Params& q) {
         sp.make = factory<HilbertFilter>([=]() { return custom ? std::make_shared<HilbertFilter>(h) : std::make_shared<HilbertFilter>(flen, tw); },
                                          [](HilbertFilter& f, const Stream& s, int lo, int hi, int form, Chans& o) {
                                              const arr_real x = s.real(lo, hi);
-                                             put(o, 0, form == 1 ? f(x) : f.process(x));
+                                             put(o, 0, (form & 1) ? f(x) : f.process(x));
                                          });
         break;
     }
@@ -366,7 +425,7 @@ Spec make_spec(const Params& q) {
         sp.make = factory<Tuner>([=]() { return std::make_shared<Tuner>(fs, fr); },
                                  [](Tuner& f, const Stream& s, int lo, int hi, int form, Chans& o) {
                                      const arr_cmplx x = s.cmplx(lo, hi);
-                                     put(o, 0, form == 1 ? f(x) : f.process(x));
+                                     put(o, 0, (form & 1) ? f(x) : f.process(x));
                                  });
         break;
     }
@@ -380,14 +439,14 @@ Spec make_spec(const Params& q) {
             sp.skind = SK_REAL;
             sp.make = factory<Agc>(ctor, [](Agc& f, const Stream& s, int lo, int hi, int form, Chans& o) {
                 const arr_real x = s.real(lo, hi);
-                const auto r = form == 1 ? f(x) : f.process(x);
+                const auto r = (form & 1) ? f(x) : f.process(x);
                 put(o, 0, r.out); put(o, 1, r.gain);
             });
         } else {
             sp.skind = SK_CMPLX;
             sp.make = factory<Agc>(ctor, [](Agc& f, const Stream& s, int lo, int hi, int form, Chans& o) {
                 const arr_cmplx x = s.cmplx(lo, hi);
-                const auto r = form == 1 ? f(x) : f.process(x);
+                const auto r = (form & 1) ? f(x) : f.process(x);
                 put(o, 0, r.out); put(o, 1, r.gain);
             });
         }
@@ -400,7 +459,7 @@ Spec make_spec(const Params& q) {
         sp.make = factory<Compressor>([=]() { return std::make_shared<Compressor>(fs, th, ratio, kn, at, rl); },
                                       [](Compressor& f, const Stream& s, int lo, int hi, int form, Chans& o) {
                                           const arr_real x = s.real(lo, hi);
-                                          const auto r = form == 1 ? f(x) : f.process(x);
+                                          const auto r = (form & 1) ? f(x) : f.process(x);
                                           put(o, 0, r.out); put(o, 1, r.gain);
                                       });
         break;
@@ -412,7 +471,7 @@ Spec make_spec(const Params& q) {
         sp.make = factory<Limiter>([=]() { return std::make_shared<Limiter>(fs, th, kn, at, rl); },
                                    [](Limiter& f, const Stream& s, int lo, int hi, int form, Chans& o) {
                                        const arr_real x = s.real(lo, hi);
-                                       const auto r = form == 1 ? f(x) : f.process(x);
+                                       const auto r = (form & 1) ? f(x) : f.process(x);
                                        put(o, 0, r.out); put(o, 1, r.gain);
                                    });
         break;
@@ -424,21 +483,24 @@ Spec make_spec(const Params& q) {
         sp.make = factory<NoiseGate>([=]() { return std::make_shared<NoiseGate>(fs, th, at, rl, hd); },
                                      [](NoiseGate& f, const Stream& s, int lo, int hi, int form, Chans& o) {
                                          const arr_real x = s.real(lo, hi);
-                                         const auto r = form == 1 ? f(x) : f.process(x);
+                                         const auto r = (form & 1) ? f(x) : f.process(x);
                                          put(o, 0, r.out); put(o, 1, r.gain);
                                      });
         break;
     }
     case P_LMSR:
-    case P_NLMSR: {   // i1 = length, d1 = step, d2 = leakage
+    case P_NLMSR: {   // i1 = length, d1 = step, d2 = leakage, i2 = lock schedule (0: never locked, else a CUTMODE), i3 = its scale T
         const int len = q.i1;
         const double mu = q.d1, lk = q.d2;
         const LmsType ty = (q.p == P_NLMSR) ? LmsType::NLMS : LmsType::LMS;
         sp.skind = SK_REAL_XD; sp.memory = LONG_MAX; sp.chans = {"y", "e"}; sp.classes = {G_GAUSS, G_TONE};
+        const CutTab tab = lock_schedule(sp, q);
+        const bool sched = q.i2 != 0;
         sp.make = factory<LmsFilterR>([=]() { return std::make_shared<LmsFilterR>(len, mu, ty, lk); },
-                                      [](LmsFilterR& f, const Stream& s, int lo, int hi, int form, Chans& o) {
+                                      [tab, sched](LmsFilterR& f, const Stream& s, int lo, int hi, int form, Chans& o) {
+                                          if (sched) f.set_lock_coeffs(seg_of(tab, lo) & 1);
                                           const arr_real x = s.real(lo, hi), d = s.dreal(lo, hi);
-                                          const auto r = form == 1 ? f(x, d) : f.process(x, d);
+                                          const auto r = (form & 1) ? f(x, d) : f.process(x, d);
                                           put(o, 0, r.y); put(o, 1, r.e);
                                       });
         break;
@@ -449,22 +511,28 @@ Spec make_spec(const Params& q) {
         const double mu = q.d1, lk = q.d2;
         const LmsType ty = (q.p == P_NLMSC) ? LmsType::NLMS : LmsType::LMS;
         sp.skind = SK_CMPLX_XD; sp.memory = LONG_MAX; sp.chans = {"y", "e"}; sp.classes = {G_GAUSS, G_TONE};
+        const CutTab tab = lock_schedule(sp, q);
+        const bool sched = q.i2 != 0;
         sp.make = factory<LmsFilterC>([=]() { return std::make_shared<LmsFilterC>(len, mu, ty, lk); },
-                                      [](LmsFilterC& f, const Stream& s, int lo, int hi, int form, Chans& o) {
+                                      [tab, sched](LmsFilterC& f, const Stream& s, int lo, int hi, int form, Chans& o) {
+                                          if (sched) f.set_lock_coeffs(seg_of(tab, lo) & 1);
                                           const arr_cmplx x = s.cmplx(lo, hi), d = s.dcmplx(lo, hi);
-                                          const auto r = form == 1 ? f(x, d) : f.process(x, d);
+                                          const auto r = (form & 1) ? f(x, d) : f.process(x, d);
                                           put(o, 0, r.y); put(o, 1, r.e);
                                       });
         break;
     }
-    case P_RLSR: {   // i1 = length, d1 = forgetting factor, d2 = diagonal load
+    case P_RLSR: {   // i1 = length, d1 = forgetting factor, d2 = diagonal load, i2 / i3 = lock schedule as for LMS
         const int len = q.i1;
         const double ff = q.d1, dl = q.d2;
         sp.skind = SK_REAL_XD; sp.memory = LONG_MAX; sp.chans = {"y", "e"}; sp.classes = {G_GAUSS, G_TONE};
+        const CutTab tab = lock_schedule(sp, q);
+        const bool sched = q.i2 != 0;
         sp.make = factory<RlsFilterR>([=]() { return std::make_shared<RlsFilterR>(len, ff, dl); },
-                                      [](RlsFilterR& f, const Stream& s, int lo, int hi, int form, Chans& o) {
+                                      [tab, sched](RlsFilterR& f, const Stream& s, int lo, int hi, int form, Chans& o) {
+                                          if (sched) f.set_lock_coeffs(seg_of(tab, lo) & 1);
                                           const arr_real x = s.real(lo, hi), d = s.dreal(lo, hi);
-                                          const auto r = form == 1 ? f(x, d) : f.process(x, d);
+                                          const auto r = (form & 1) ? f(x, d) : f.process(x, d);
                                           put(o, 0, r.y); put(o, 1, r.e);
                                       });
         break;
@@ -473,12 +541,51 @@ Spec make_spec(const Params& q) {
         const int len = q.i1;
         const double ff = q.d1, dl = q.d2;
         sp.skind = SK_CMPLX_XD; sp.memory = LONG_MAX; sp.chans = {"y", "e"}; sp.classes = {G_GAUSS, G_TONE};
+        const CutTab tab = lock_schedule(sp, q);
+        const bool sched = q.i2 != 0;
         sp.make = factory<RlsFilterC>([=]() { return std::make_shared<RlsFilterC>(len, ff, dl); },
-                                      [](RlsFilterC& f, const Stream& s, int lo, int hi, int form, Chans& o) {
+                                      [tab, sched](RlsFilterC& f, const Stream& s, int lo, int hi, int form, Chans& o) {
+                                          if (sched) f.set_lock_coeffs(seg_of(tab, lo) & 1);
                                           const arr_cmplx x = s.cmplx(lo, hi), d = s.dcmplx(lo, hi);
-                                          const auto r = form == 1 ? f(x, d) : f.process(x, d);
+                                          const auto r = (form & 1) ? f(x, d) : f.process(x, d);
                                           put(o, 0, r.y); put(o, 1, r.e);
                                       });
+        break;
+    }
+    case P_FFTMIX: {   // i1 = taps, i2 = flags (bit 0: complex response, bit 1: the first segment is complex, bits 2-3: CUTMODE), i3 = segment scale T
+        const bool hc = q.i2 & 1;
+        const int startc = (q.i2 >> 1) & 1;
+        const arr_real hr = coef_real(q.ps, q.i1);
+        const arr_cmplx hx = coef_cmplx(q.ps, q.i1);
+        auto ctor = [=]() { return hc ? std::make_shared<FftFilter>(hx) : std::make_shared<FftFilter>(hr); };
+        sp.skind = SK_BOTH; sp.memory = ctor()->block_size(); sp.chans = {"y"};
+        const CutTab tab = std::make_shared<std::vector<int>>();
+        set_cuts(sp, tab, (q.i2 >> 2) & 3, q.i3, q.ps);
+        // a real segment yields one value per output sample, a complex one two: the concatenation is compared as it comes
+        sp.make = factory<FftFilter>(ctor, [tab, startc](FftFilter& f, const Stream& s, int lo, int hi, int form, Chans& o) {
+            if ((seg_of(tab, lo) + startc) & 1) { const arr_cmplx x = s.cmplx(lo, hi); put(o, 0, (form & 1) ? f(x) : f.process(x)); }
+            else { const arr_real x = s.real(lo, hi); put(o, 0, (form & 1) ? f(x) : f.process(x)); }
+        });
+        break;
+    }
+    case P_AGCMIX: {   // Agc parameters as P_AGCR; i2 = flags (bit 1: the first segment is complex, bits 2-3: CUTMODE), i3 = segment scale T
+        const double tl = q.d1, mg = q.d2, tr = q.d3, tf = q.d4;
+        const int al = q.i1, startc = (q.i2 >> 1) & 1;
+        sp.skind = SK_BOTH; sp.memory = LONG_MAX; sp.chans = {"out", "gain"};
+        const CutTab tab = std::make_shared<std::vector<int>>();
+        set_cuts(sp, tab, (q.i2 >> 2) & 3, q.i3, q.ps);
+        sp.make = factory<Agc>([=]() { return std::make_shared<Agc>(tl, mg, al, tr, tf); },
+                               [tab, startc](Agc& f, const Stream& s, int lo, int hi, int form, Chans& o) {
+                                   if ((seg_of(tab, lo) + startc) & 1) {
+                                       const arr_cmplx x = s.cmplx(lo, hi);
+                                       const auto r = (form & 1) ? f(x) : f.process(x);
+                                       put(o, 0, r.out); put(o, 1, r.gain);
+                                   } else {
+                                       const arr_real x = s.real(lo, hi);
+                                       const auto r = (form & 1) ? f(x) : f.process(x);
+                                       put(o, 0, r.out); put(o, 1, r.gain);
+                                   }
+                               });
         break;
     }
     default: throw std::runtime_error("make_spec: unknown processor");
@@ -499,14 +606,14 @@ double work_of(const Params& q) {
     switch (q.p) {
     case P_FIRR: return q.i1 + 20;
     case P_FIRC: return 4.0 * q.i1 + 20;
-    case P_FFTR: case P_FFTC: return 400;
+    case P_FFTR: case P_FFTC: case P_FFTMIX: return 400;
     case P_DECIM: return (q.i2 ? q.i2 : 24 * q.i1) / double(q.i1) + 20;
     case P_INTERP: return (q.i2 ? q.i2 : 24 * q.i1) + 20;
     case P_RATECONV: return (q.i3 ? q.i3 : 25.0 * std::max(q.i1, q.i2)) / q.i2 + 20;
     case P_RESAMPLER: { const int g = std::gcd(q.i1, q.i2), L = q.i1 / g, M = q.i2 / g; return (q.i3 ? q.i3 : 25.0 * std::max(L, M)) / M + 20; }
     case P_MEDIAN: return 4 * q.i1 + 20;
     case P_HILBERT: return q.i1 + 40;
-    case P_TUNER: case P_AGCR: case P_AGCC: case P_COMP: case P_LIMITER: return 100;
+    case P_TUNER: case P_AGCR: case P_AGCC: case P_AGCMIX: case P_COMP: case P_LIMITER: return 100;
     case P_LMSR: case P_NLMSR: return 4 * q.i1 + 40;
     case P_LMSC: case P_NLMSC: return 14 * q.i1 + 40;
     case P_RLSR: return 5.0 * q.i1 * q.i1 + 100;
@@ -521,17 +628,47 @@ int max_granules(const Params& q, double budget, int cap_samples) {
 }
 
 // ------------------------------------------------------------------------------------------- runs and comparison
-Chans run_frames(const Spec& sp, const Stream& s, const std::vector<int>& frames_gran, bool alt_forms) {
+// Call form of frame idx: (idx + off) % cycle (see Feed).  Saved cases without the fields keep the former cycle 0,1,2 and a
+// reference made with process().
+struct Forms
+{
+    int cycle{3}, off{0}, ref{0};
+    int at(size_t idx) const { return int((idx + size_t(off)) % size_t(cycle)); }
+};
+Forms get_forms(const Json& c, const std::string& sfx = "") {
+    Forms f;
+    f.cycle = c.geti("fc" + sfx, 3); f.off = c.geti("fo" + sfx, 0); f.ref = c.geti("rf" + sfx, 0);
+    if (f.cycle < 1 || f.cycle > 4 || f.off < 0 || f.off > 3 || f.ref < 0 || f.ref > 1) throw std::runtime_error("case: bad call-form fields");
+    return f;
+}
+Json& put_forms(Json& c, int off, int ref, const std::string& sfx = "") { return c.set("fc" + sfx, 4).set("fo" + sfx, off).set("rf" + sfx, ref); }
+
+Chans run_frames(const Spec& sp, const Stream& s, const std::vector<int>& frames_gran, const Forms& fm) {
     Feed f = sp.make();
     Chans out(sp.chans.size());
-    int pos = 0, idx = 0;
+    int pos = 0;
+    size_t idx = 0;
     for (int fr : frames_gran) {
         const int len = fr * sp.granule;
-        f(s, pos, pos + len, alt_forms ? (idx % 3) : 0, out);
+        f(s, pos, pos + len, fm.at(idx), out);
         pos += len;
         ++idx;
     }
     return out;
+}
+// labels: which call forms the framed run of this case really used
+void form_labels(const Spec& sp, const std::vector<int>& frames, const Forms& fm, Out& o) {
+    if (!sp.has_op) { o.label("callform:process (class without operator())"); return; }
+    bool pr = false, op = false, spr = false, sop = false;
+    for (size_t i = 0; i < frames.size(); ++i) {
+        const int form = fm.at(i);
+        if (sp.scalar_forms && form >= 2 && long(frames[i]) * sp.granule == 1) ((form & 1) ? sop : spr) = true;
+        else ((form & 1) ? op : pr) = true;
+    }
+    if (pr) o.label("callform:process");
+    if (op) o.label("callform:operator()");
+    if (spr) o.label("callform:scalar process:" + sp.name);
+    if (sop) o.label("callform:scalar operator():" + sp.name);
 }
 
 bool same_value(double a, double b) { return a == b || (std::isnan(a) && std::isnan(b)); }   // -0 == +0
@@ -549,7 +686,8 @@ struct CmpResult
     bool nonzero{false};
 };
 // ref = single call on the whole stream (or the solo run), got = framed (or interleaved) run
-CmpResult compare(const std::string& prefix, const Spec& sp, const Chans& ref, const Chans& got, const std::vector<int>& frames, Out& o) {
+CmpResult compare(const std::string& prefix, const Spec& sp, const Chans& ref, const Chans& got, const std::vector<int>& frames, Out& o,
+                  const char* refname = "single call") {
     CmpResult res;
     double worst_ratio = 0;
     for (size_t ch = 0; ch < sp.chans.size(); ++ch) {
@@ -557,8 +695,8 @@ CmpResult compare(const std::string& prefix, const Spec& sp, const Chans& ref, c
         const auto& G = got.v[ch];
         const std::string sig = prefix + sp.name + ":" + sp.chans[ch];
         if (R.size() != G.size()) {
-            o.fail(sig + ":size", fmt("%s.%s: framed run produced %zu values, single call %zu; frames(granules of %d)=%s", sp.name.c_str(),
-                                      sp.chans[ch].c_str(), G.size(), R.size(), sp.granule, frames_text(frames).c_str()));
+            o.fail(sig + ":size", fmt("%s.%s: framed run produced %zu values, %s %zu; frames(granules of %d)=%s", sp.name.c_str(),
+                                      sp.chans[ch].c_str(), G.size(), refname, R.size(), sp.granule, frames_text(frames).c_str()));
             res.identical = false;
             continue;
         }
@@ -576,8 +714,8 @@ CmpResult compare(const std::string& prefix, const Spec& sp, const Chans& ref, c
             const double ratio = tol > 0 ? d / tol : INFINITY;
             worst_ratio = std::max(worst_ratio, ratio);
             if (!(d <= tol)) {
-                o.fail(sig + ":value", fmt("%s.%s[%zu of %zu]: framed %.17g, single call %.17g, |delta|=%.3g > tol %.3g (1e-12*max|out|); frames(granules of %d)=%s",
-                                           sp.name.c_str(), sp.chans[ch].c_str(), i, R.size(), G[i], R[i], d, tol, sp.granule, frames_text(frames).c_str()));
+                o.fail(sig + ":value", fmt("%s.%s[%zu of %zu]: framed %.17g, %s %.17g, |delta|=%.3g > tol %.3g (1e-12*max|out|); frames(granules of %d)=%s",
+                                           sp.name.c_str(), sp.chans[ch].c_str(), i, R.size(), G[i], refname, R[i], d, tol, sp.granule, frames_text(frames).c_str()));
                 break;
             }
         }
@@ -589,7 +727,7 @@ CmpResult compare(const std::string& prefix, const Spec& sp, const Chans& ref, c
 struct FrameStats
 {
     int count{0};
-    long minlen{0};
+    long minlen{0}, maxlen{0};
     uint64_t hash{0};
 };
 FrameStats frame_stats(const std::vector<int>& fr, int granule) {
@@ -597,30 +735,53 @@ FrameStats frame_stats(const std::vector<int>& fr, int granule) {
     s.count = int(fr.size());
     s.minlen = LONG_MAX;
     uint64_t h = 0xF00D;
-    for (int f : fr) { s.minlen = std::min<long>(s.minlen, long(f) * granule); h = mix(h, uint64_t(f)); }
+    for (int f : fr) { s.minlen = std::min<long>(s.minlen, long(f) * granule); s.maxlen = std::max<long>(s.maxlen, long(f) * granule); h = mix(h, uint64_t(f)); }
     s.hash = h;
     return s;
 }
 const char* count_class(int n) { return n <= 1 ? "frames:1" : n <= 3 ? "frames:2-3" : n <= 15 ? "frames:4-15" : n <= 255 ? "frames:16-255" : "frames:256+"; }
 
+// segmented variants: the frames between the switch positions (the coarsest admissible framing)
+std::vector<int> frames_of_cuts(const std::vector<int>& cuts, int n) {
+    std::vector<int> f;
+    int pos = 0;
+    for (int c : cuts) { f.push_back(c - pos); pos = c; }
+    f.push_back(n - pos);
+    return f;
+}
+
 // The property over one (processor, parameter point, stream, framing).
-void check_framing(const Params& q, const std::vector<int>& frames, uint64_t seed, int cls_pick, Out& o) {
+void check_framing(const Params& q, const std::vector<int>& frames_in, uint64_t seed, int cls_pick, const Forms& fm, Out& o) {
     const Spec sp = make_spec(q);
-    const int n = std::accumulate(frames.begin(), frames.end(), 0);
+    const int n = std::accumulate(frames_in.begin(), frames_in.end(), 0);
     const int cls = sp.classes[size_t(cls_pick) % sp.classes.size()];
     const Stream st = make_stream(sp.skind, n * sp.granule, seed, cls);
-    const Chans ref = run_frames(sp, st, std::vector<int>{n}, false);
-    const Chans got = run_frames(sp, st, frames, true);
-    const CmpResult cr = compare("", sp, ref, got, frames, o);
+    // segmented variants (granule 1): the framing gets a boundary at every switch position, the reference is one call per segment
+    const std::vector<int> cuts = sp.cuts ? sp.cuts(n) : std::vector<int>{};
+    const std::vector<int> ref_frames = frames_of_cuts(cuts, n);
+    const std::vector<int> frames = cuts.empty() ? frames_in : refine(frames_in, cuts);
+    Forms rf;
+    rf.cycle = 1; rf.off = fm.ref;
+    const Chans ref = run_frames(sp, st, ref_frames, rf);
+    const Chans got = run_frames(sp, st, frames, fm);
+    const CmpResult cr = compare("", sp, ref, got, frames, o, cuts.empty() ? "single call" : "one call per segment");
     const FrameStats fs = frame_stats(frames, sp.granule);
     const bool short_frame = fs.minlen < sp.memory;
-    if (fs.count >= 2 && short_frame && cr.nonzero) o.nontrivial(key_of(params_key(q), fs.hash, uint64_t(n)));
+    if (frames.size() > ref_frames.size() && short_frame && cr.nonzero) o.nontrivial(key_of(params_key(q), fs.hash, uint64_t(n)));
     o.label(std::string("proc:") + sp.name);
     o.label(std::string("signal:") + GNAME[cls]);
     o.label(count_class(fs.count));
     o.label(short_frame ? "minframe<memory" : "minframe>=memory");
     if (!cr.nonzero) o.label("output:all-zero:" + sp.name);
     o.label(cr.identical ? "bitwise:identical" : "bitwise:differs");
+    form_labels(sp, frames, fm, o);
+    o.label(fm.ref ? "reference:operator()" : "reference:process()");
+    if (sp.cutmode) {
+        o.label(CUTMODE[sp.cutmode]);
+        o.label(cuts.empty() ? "segments:1 (stream shorter than the first switch)" : cuts.size() == 1 ? "segments:2" : cuts.size() < 8 ? "segments:3-8" : "segments:9+");
+        if (frames.size() > ref_frames.size()) o.label("segmented:frames-inside-a-segment:" + sp.name);
+    }
+    if (fs.maxlen > 65535) o.label("frame>65535:" + sp.name);
 }
 
 // ------------------------------------------------------------------------------------------- parameter points
@@ -635,6 +796,7 @@ std::vector<Params> small_points() {
     std::vector<Params> v;
     for (int t : {2, 3, 5, 16}) { v.push_back(pt(P_FIRR, t)); v.push_back(pt(P_FIRC, t)); }
     for (int t : {2, 3, 4, 7}) { v.push_back(pt(P_FFTR, t, t & 1)); v.push_back(pt(P_FFTC, t, (t + 1) & 1)); }
+    v.push_back(pt(P_FFTR, 1, 0)); v.push_back(pt(P_FFTC, 1, 1));   // one tap: the smallest response FftFilter accepts (block 2, no overlap)
     v.push_back(pt(P_DECIM, 2, 0)); v.push_back(pt(P_DECIM, 3, 0)); v.push_back(pt(P_DECIM, 2, 7)); v.push_back(pt(P_DECIM, 4, 9)); v.push_back(pt(P_DECIM, 1, 5));
     v.push_back(pt(P_INTERP, 2, 0)); v.push_back(pt(P_INTERP, 3, 10)); v.push_back(pt(P_INTERP, 1, 4)); v.push_back(pt(P_INTERP, 5, 11));
     v.push_back(pt(P_RATECONV, 3, 2, 0)); v.push_back(pt(P_RATECONV, 2, 3, 13)); v.push_back(pt(P_RATECONV, 5, 3, 17)); v.push_back(pt(P_RATECONV, 4, 6, 9));
@@ -643,7 +805,9 @@ std::vector<Params> small_points() {
     v.push_back(pt(P_MEDIAN, 3)); v.push_back(pt(P_MEDIAN, 4, 0, 0, 0.5)); v.push_back(pt(P_MEDIAN, 5)); v.push_back(pt(P_MEDIAN, 8, 0, 0, -1.0)); v.push_back(pt(P_MEDIAN, 33));
     for (int n : {1, 2, 3, 4, 7, 100}) { v.push_back(pt(P_MAR, n)); v.push_back(pt(P_MAC, n)); }
     v.push_back(pt(P_HILBERT, 3, 0, 0, 0.05)); v.push_back(pt(P_HILBERT, 5, 1)); v.push_back(pt(P_HILBERT, 11, 0, 0, 0.01)); v.push_back(pt(P_HILBERT, 4, 0, 0, 0.1));
+    v.push_back(pt(P_HILBERT, 2, 0, 0, 0.1));   // smallest accepted length (flen 1 is rejected)
     v.push_back(pt(P_TUNER, 8, 0, 0, 1.0)); v.push_back(pt(P_TUNER, 7, 0, 0, 2.5)); v.push_back(pt(P_TUNER, 4, 0, 0, -2.0)); v.push_back(pt(P_TUNER, 100, 0, 0, 12.34));
+    v.push_back(pt(P_TUNER, 1, 0, 0, 0.5)); v.push_back(pt(P_TUNER, 7, 0, 0, -3.5));   // smallest rate, |freq| = fs/2 for an odd rate
     for (int p : {P_AGCR, P_AGCC}) {
         v.push_back(pt(p, 3, 0, 0, 1.0, 60.0, 0.01, 0.01)); v.push_back(pt(p, 1, 0, 0, 0.5, 20.0, 0.3, 0.1)); v.push_back(pt(p, 100, 0, 0, 2.0, 6.0, 0.05, 0.2));
     }
@@ -653,6 +817,15 @@ std::vector<Params> small_points() {
     for (int p : {P_LMSR, P_LMSC}) { v.push_back(pt(p, 2, 0, 0, 0.1, 1.0)); v.push_back(pt(p, 3, 0, 0, 0.05, 0.99)); v.push_back(pt(p, 8, 0, 0, 0.02, 1.0)); }
     for (int p : {P_NLMSR, P_NLMSC}) { v.push_back(pt(p, 2, 0, 0, 0.5, 1.0)); v.push_back(pt(p, 4, 0, 0, 1.0, 0.999)); v.push_back(pt(p, 8, 0, 0, 0.2, 1.0)); }
     for (int p : {P_RLSR, P_RLSC}) { v.push_back(pt(p, 1, 0, 0, 0.99, 1.0)); v.push_back(pt(p, 2, 0, 0, 0.95, 10.0)); v.push_back(pt(p, 4, 0, 0, 1.0, 0.1)); v.push_back(pt(p, 6, 0, 0, 0.9, 1.0)); }
+    // coefficient lock (i2 = schedule, i3 = scale): locked after a warm-up of T samples / toggled every T samples / at irregular positions
+    for (int p : {P_LMSR, P_LMSC}) { v.push_back(pt(p, 3, 1, 2, 0.05, 0.99)); v.push_back(pt(p, 2, 2, 3, 0.1, 1.0)); }
+    for (int p : {P_NLMSR, P_NLMSC}) { v.push_back(pt(p, 4, 1, 3, 1.0, 0.999)); v.push_back(pt(p, 2, 3, 2, 0.5, 1.0)); }
+    for (int p : {P_RLSR, P_RLSC}) { v.push_back(pt(p, 2, 1, 2, 0.95, 10.0)); v.push_back(pt(p, 4, 2, 3, 1.0, 0.1)); v.push_back(pt(p, 1, 3, 2, 0.99, 1.0)); }
+    // one object, real and complex segments in turn (i2 = response kind | first kind << 1 | schedule << 2, i3 = scale)
+    v.push_back(pt(P_FFTMIX, 2, 0 | 0 << 1 | 2 << 2, 3)); v.push_back(pt(P_FFTMIX, 3, 1 | 1 << 1 | 2 << 2, 2));
+    v.push_back(pt(P_FFTMIX, 4, 0 | 1 << 1 | 3 << 2, 2)); v.push_back(pt(P_FFTMIX, 1, 1 | 0 << 1 | 1 << 2, 4));
+    v.push_back(pt(P_AGCMIX, 3, 0 << 1 | 2 << 2, 2, 1.0, 60.0, 0.01, 0.01)); v.push_back(pt(P_AGCMIX, 1, 1 << 1 | 3 << 2, 3, 0.5, 20.0, 0.3, 0.1));
+    v.push_back(pt(P_AGCMIX, 100, 1 << 1 | 1 << 2, 4, 2.0, 6.0, 0.05, 0.2));
     return v;
 }
 // larger points of the grid (ends and typical values)
@@ -679,6 +852,11 @@ std::vector<Params> large_points() {
     for (int p : {P_LMSR, P_LMSC}) { v.push_back(pt(p, 16, 0, 0, 0.01, 1.0)); v.push_back(pt(p, 64, 0, 0, 0.002, 0.999)); }
     for (int p : {P_NLMSR, P_NLMSC}) { v.push_back(pt(p, 16, 0, 0, 0.5, 1.0)); v.push_back(pt(p, 64, 0, 0, 1.2, 0.999)); }
     for (int p : {P_RLSR, P_RLSC}) { v.push_back(pt(p, 8, 0, 0, 0.99, 1.0)); v.push_back(pt(p, 12, 0, 0, 0.95, 100.0)); }
+    for (int p : {P_LMSR, P_LMSC}) { v.push_back(pt(p, 16, 1, 20, 0.01, 1.0)); v.push_back(pt(p, 64, 3, 25, 0.002, 0.999)); }
+    for (int p : {P_NLMSR, P_NLMSC}) { v.push_back(pt(p, 16, 2, 24, 0.5, 1.0)); v.push_back(pt(p, 64, 1, 40, 1.2, 0.999)); }
+    for (int p : {P_RLSR, P_RLSC}) { v.push_back(pt(p, 8, 3, 12, 0.99, 1.0)); v.push_back(pt(p, 12, 2, 24, 0.95, 100.0)); }
+    v.push_back(pt(P_FFTMIX, 100, 1 | 0 << 1 | 2 << 2, 70)); v.push_back(pt(P_FFTMIX, 33, 0 | 1 << 1 | 3 << 2, 20)); v.push_back(pt(P_FFTMIX, 300, 1 | 1 << 1 | 1 << 2, 500));
+    v.push_back(pt(P_AGCMIX, 100, 0 << 1 | 3 << 2, 30, 1.0, 60.0, 0.01, 0.01)); v.push_back(pt(P_AGCMIX, 17, 1 << 1 | 2 << 2, 24, 0.1, 40.0, 0.2, 0.02));
     return v;
 }
 
@@ -687,11 +865,19 @@ Params gen_params(int p) {
     Params q;
     q.p = p;
     q.ps = uint64_t(pick(0, 1 << 20));
-    auto time_const = [&]() { return flip() ? 0.0 : std::pow(10.0, pickd(-4.0, 0.6)); };   // 0 or 1e-4 .. 3.98 s
-    static const std::vector<int> rates = {8, 100, 1000, 8000, 44100, 48000};
+    // documented ranges of the dynamics processors: both ends exactly, and the interior
+    auto time_const = [&]() { const int k = pick(0, 9); return k < 4 ? 0.0 : k == 9 ? 4.0 : std::pow(10.0, pickd(-4.0, 0.6)); };   // 0, 1e-4 .. 3.98 s, 4 s
+    auto in_range = [&](double lo, double hi) { const int k = pick(0, 11); return k == 0 ? lo : k == 1 ? hi : pickd(lo, hi); };
+    auto schedule = [&](Params& qq, int shift) {   // segmented variants: CUTMODE and scale
+        const int mode = pick(1, 3);
+        qq.i2 |= mode << shift;
+        qq.i3 = mode == 1 ? pick_log(1, 300) : pick_log(2, 300);
+    };
+    static const std::vector<int> rates = {1, 8, 100, 1000, 8000, 44100, 48000};
     switch (p) {
     case P_FIRR: case P_FIRC: q.i1 = pick_log(2, 300); break;
-    case P_FFTR: case P_FFTC: q.i1 = pick_log(2, 300); q.i2 = pick(0, 1); break;
+    case P_FFTR: case P_FFTC: q.i1 = pick_log(1, 300); q.i2 = pick(0, 1); break;
+    case P_FFTMIX: q.i1 = pick_log(1, 300); q.i2 = pick(0, 3); schedule(q, 2); break;
     case P_DECIM: case P_INTERP: q.i1 = pick(1, 12); q.i2 = flip() ? 0 : pick_log(1, 300); break;
     case P_RATECONV: {
         static const std::vector<std::pair<int, int>> special = {{160, 441}, {441, 160}, {147, 160}, {160, 147}};
@@ -710,38 +896,46 @@ Params gen_params(int p) {
     case P_DELAYR: case P_DELAYC: q.i1 = pick_log(1, 200); q.i2 = pick(0, 1); break;
     case P_MEDIAN: q.i1 = pick(3, 33); q.d1 = flip() ? 0.0 : pickd(-2, 2); break;
     case P_MAR: case P_MAC: q.i1 = pick_log(1, 300); break;
-    case P_HILBERT: q.i1 = pick_log(3, 301); q.i2 = pick(0, 1); q.d1 = pickd(0.005, 0.2); break;
+    case P_HILBERT: q.i1 = pick_log(2, 301); q.i2 = pick(0, 1); q.d1 = pickd(0.005, 0.2); break;
     case P_TUNER: {
-        static const std::vector<int> fs = {2, 7, 8, 50, 100, 1000, 8000, 44100};
+        static const std::vector<int> fs = {1, 2, 7, 8, 50, 100, 1000, 8000, 44100};
         q.i1 = one_of(fs);
-        q.i2 = pick(0, 1);
-        const int half = q.i1 / 2;   // the constructor compares with the integer fs/2
-        q.d1 = q.i2 ? double(pick(-half, half)) : pickd(-double(half), double(half));
+        q.i2 = pick(0, 2);   // fractional / integer frequency / exactly +-fs/2 (the documented limit; fractional for an odd rate)
+        const int half = q.i1 / 2;
+        const double hf = q.i1 / 2.0;
+        q.d1 = q.i2 == 0 ? pickd(-hf, hf) : q.i2 == 1 ? double(pick(-half, half)) : (flip() ? hf : -hf);
         break;
     }
     case P_AGCR: case P_AGCC:
         q.d1 = std::pow(10.0, pickd(-2, 1)); q.d2 = pickd(0, 80); q.i1 = pick_log(1, 300); q.d3 = std::pow(10.0, pickd(-3, -0.31)); q.d4 = std::pow(10.0, pickd(-3, -0.31));
         break;
+    case P_AGCMIX:
+        q.d1 = std::pow(10.0, pickd(-2, 1)); q.d2 = pickd(0, 80); q.i1 = pick_log(1, 300); q.d3 = std::pow(10.0, pickd(-3, -0.31)); q.d4 = std::pow(10.0, pickd(-3, -0.31));
+        q.i2 = pick(0, 1) << 1; schedule(q, 2);
+        break;
     case P_COMP:
-        q.i1 = one_of(rates); q.d1 = pickd(-50, 0); q.i2 = pick(1, 50); q.d2 = flip() ? 0.0 : pickd(0, 20); q.d3 = time_const(); q.d4 = time_const();
+        q.i1 = one_of(rates); q.d1 = in_range(-50, 0); { const int k = pick(0, 9); q.i2 = k == 0 ? 1 : k == 1 ? 50 : pick(1, 50); } q.d2 = flip() ? 0.0 : in_range(0, 20); q.d3 = time_const(); q.d4 = time_const();
         break;
     case P_LIMITER:
-        q.i1 = one_of(rates); q.d1 = pickd(-50, 0); q.d2 = flip() ? 0.0 : pickd(0, 20); q.d3 = time_const(); q.d4 = time_const();
+        q.i1 = one_of(rates); q.d1 = in_range(-50, 0); q.d2 = flip() ? 0.0 : in_range(0, 20); q.d3 = time_const(); q.d4 = time_const();
         break;
     case P_GATE: {
-        q.i1 = one_of(rates); q.d1 = pick(0, 3) ? pickd(-60, 0) : pickd(-140, 0); q.d2 = time_const(); q.d3 = time_const();
+        q.i1 = one_of(rates); q.d1 = pick(0, 3) ? in_range(-60, 0) : in_range(-140, 0); q.d2 = time_const(); q.d3 = time_const();
         const int hold = pick_log(0, 300);   // hold time in samples (hold_time <= 4 s)
-        q.d4 = std::min(4.0, (hold + 0.5) / q.i1);
+        q.d4 = pick(0, 15) == 0 ? 4.0 : std::min(4.0, (hold + 0.5) / q.i1);   // 4 s: the documented maximum
         break;
     }
     case P_LMSR: case P_LMSC:
         q.i1 = pick_log(2, 128); q.d1 = pickd(0.01, 0.4) / (q.i1 * (p == P_LMSC ? 2 : 1)); q.d2 = one_of(std::vector<double>{1.0, 0.999, 0.9});
+        if (flip()) schedule(q, 0);
         break;
     case P_NLMSR: case P_NLMSC:
         q.i1 = pick_log(2, 128); q.d1 = pickd(0.05, 1.5); q.d2 = one_of(std::vector<double>{1.0, 0.999, 0.9});
+        if (flip()) schedule(q, 0);
         break;
     case P_RLSR: case P_RLSC:
         q.i1 = pick(1, 16); q.d1 = flip() ? 1.0 : pickd(0.9, 1.0); q.d2 = std::pow(10.0, pickd(-2, 2));
+        if (flip()) schedule(q, 0);
         break;
     default: break;
     }
@@ -749,8 +943,9 @@ Params gen_params(int p) {
 }
 
 // ------------------------------------------------------------------------------------------- framings
-// sizes (in granules, each 1..4096) of consecutive frames covering n granules
-std::vector<int> expand_framing(int n, int style, int fa, int fm, uint64_t fseed) {
+// sizes (in granules, each 1..4096) of consecutive frames covering n granules; big > 0: one frame of `big` granules
+// (any size, meant for frames of more than 65535 samples) at a generated position, framed as usual before and after it
+std::vector<int> expand_framing(int n, int style, int fa, int fm, uint64_t fseed, int big = 0) {
     Rng r(mix(fseed, 0xF7A3));
     std::vector<int> f;
     const double alpha = 0.5 + 0.5 * fa;   // Pareto shape 0.5, 1, 1.5, 2
@@ -758,7 +953,13 @@ std::vector<int> expand_framing(int n, int style, int fa, int fm, uint64_t fseed
         const double u = 1.0 - r.uni();
         return int(std::min(4096.0, std::floor(xm * std::pow(u, -1.0 / alpha))));
     };
-    int rem = n;
+    int rem = n, before_big = -1;
+    if (big > 0) {
+        if (big > n) throw std::runtime_error("case: the long frame exceeds the stream");
+        before_big = r.range(0, n - big);
+        rem = before_big;
+        if (rem == 0) { f.push_back(big); rem = n - big; before_big = -1; }
+    }
     while (rem > 0) {
         int s = 1;
         switch (style) {
@@ -771,6 +972,7 @@ std::vector<int> expand_framing(int n, int style, int fa, int fm, uint64_t fseed
         s = std::max(1, std::min(s, std::min(rem, 4096)));
         f.push_back(s);
         rem -= s;
+        if (rem == 0 && before_big >= 0) { f.push_back(big); rem = n - before_big - big; before_big = -1; }
     }
     return f;
 }
@@ -794,7 +996,7 @@ static void comp_check(const Json& c, Out& o) {
         cur += gm;
         if (i == k - 1 || ((mask >> i) & 1)) { frames.push_back(cur); cur = 0; }
     }
-    check_framing(q, frames, c.getu("seed"), c.geti("cls"), o);
+    check_framing(q, frames, c.getu("seed"), c.geti("cls"), get_forms(c), o);
     o.label(fmt("k:%02d", k));
 }
 static void comp_gen(Ctx& ctx) {
@@ -811,6 +1013,7 @@ static void comp_gen(Ctx& ctx) {
                     put_params(c, pts[ip]);
                     c.set("k", k).set("gm", variants[iv].first).set("pre", variants[iv].second).set("mask", (long long)mask);
                     c.set("cls", int(h & 3)).set("seed", (long long)(h >> 16));
+                    put_forms(c, int((h >> 2) & 3), int((h >> 4) & 1));
                     ctx.eval(c);
                 }
 }
@@ -831,7 +1034,7 @@ static void reg_check(const Json& c, Out& o) {
         rem -= s;
         ++i;
     }
-    check_framing(q, frames, c.getu("seed"), c.geti("cls"), o);
+    check_framing(q, frames, c.getu("seed"), c.geti("cls"), get_forms(c), o);
     o.label(alt ? "pattern:1,f,1,f" : "pattern:f,f,f");
 }
 static void reg_gen(Ctx& ctx) {
@@ -858,6 +1061,7 @@ static void reg_gen(Ctx& ctx) {
                 Json c = Json::object();
                 put_params(c, q);
                 c.set("n", n).set("f", f).set("alt", alt).set("cls", int(h & 3)).set("seed", (long long)(h >> 16));
+                put_forms(c, int((h >> 2) & 3), int((h >> 4) & 1));
                 ctx.eval(c);
             }
         }
@@ -869,10 +1073,12 @@ VK_SUB(rnd, "random_framing");
 static void rnd_check(const Json& c, Out& o) {
     const Params q = get_params(c);
     const int n = c.geti("n"), style = c.geti("fs"), fa = c.geti("fa"), fm = c.geti("fm");
-    if (n < 1 || n > 200000 || style < 0 || style > 4 || fa < 0 || fa > 3 || fm < 1 || fm > 4096) throw std::runtime_error("case: bad framing parameters");
-    const std::vector<int> frames = expand_framing(n, style, fa, fm, c.getu("fseed"));
-    check_framing(q, frames, c.getu("seed"), c.geti("cls"), o);
+    const int big = c.geti("big", 0);   // granules of one extra long frame (0: none)
+    if (n < 1 || n > 200000 || style < 0 || style > 4 || fa < 0 || fa > 3 || fm < 1 || fm > 4096 || big < 0 || big > n) throw std::runtime_error("case: bad framing parameters");
+    const std::vector<int> frames = expand_framing(n, style, fa, fm, c.getu("fseed"), big);
+    check_framing(q, frames, c.getu("seed"), c.geti("cls"), get_forms(c), o);
     o.label(STYLE[style]);
+    if (big) o.label("framing:with one frame of more than 65535 samples");
     const long ns = long(n) * granule_of(q);
     o.label(ns < 100 ? "stream:<100" : ns < 1000 ? "stream:100-999" : ns < 10000 ? "stream:1e3-1e4" : "stream:1e4-1e5");
 }
@@ -884,6 +1090,7 @@ static void rnd_gen(Ctx& ctx) {
         case P_FIRC: case P_LMSC: case P_NLMSC: w = 0.5; break;
         case P_RLSR: case P_RLSC: w = 0.6; break;
         case P_FFTR: case P_FFTC: w = 0.6; break;
+        case P_FFTMIX: case P_AGCMIX: w = 0.5; break;
         default: break;
         }
         const int budget = int(w * ctx.by_tier(12000, 80000));
@@ -896,6 +1103,33 @@ static void rnd_gen(Ctx& ctx) {
             const int n = pick_log(2, maxg);
             c.set("n", n).set("fs", pick(0, 4)).set("fa", pick(0, 3)).set("fm", pick_log(1, std::min(4096, std::max(1, n - 1))));
             c.set("cls", pick(0, 3)).set("fseed", (long long)seed64()).set("seed", (long long)seed64());
+            put_forms(c, pick(0, 3), pick(0, 1));
+            return c;
+        });
+    }
+    // one frame of more than 65535 samples inside a stream of 7e4..1e5 samples, for every processor; the costly size
+    // parameters are kept small here (the whole grid is covered above)
+    for (int p = 0; p < P_COUNT; ++p) {
+        ctx.rc(std::string("long-frame:") + PNAME[p], ctx.by_tier(16, 192), [&]() {
+            Params q = gen_params(p);
+            switch (p) {
+            case P_FIRC: q.i1 = std::min(q.i1, 64); break;
+            case P_LMSR: case P_NLMSR: q.i1 = std::min(q.i1, 32); break;
+            case P_LMSC: case P_NLMSC: q.i1 = std::min(q.i1, 12); break;
+            case P_RLSR: q.i1 = std::min(q.i1, 4); break;
+            case P_RLSC: q.i1 = std::min(q.i1, 3); break;
+            default: break;
+            }
+            // segmented variants: one switch position early in the stream, so that the long frame fits into the second segment
+            if (p >= P_LMSR && p <= P_RLSC && q.i2) q.i2 = 1;
+            if (p == P_FFTMIX || p == P_AGCMIX) q.i2 = (q.i2 & 3) | 1 << 2;
+            const int g = granule_of(q);
+            const int n = pick(70000, 100000) / g, bigmin = 65535 / g + 1;
+            Json c = Json::object();
+            put_params(c, q);
+            c.set("n", n).set("fs", pick(0, 4)).set("fa", pick(0, 3)).set("fm", pick_log(1, 4096)).set("big", pick(bigmin, std::min(n, bigmin + 8000 / g)));
+            c.set("cls", pick(0, 3)).set("fseed", (long long)seed64()).set("seed", (long long)seed64());
+            put_forms(c, pick(0, 3), pick(0, 1));
             return c;
         });
     }
@@ -917,6 +1151,7 @@ static void ind_check(const Json& c, Out& o) {
         Stream st;
         std::vector<int> frames;
         Chans solo, got;
+        Forms forms;
         Feed feed;
         size_t next{0};
         int pos{0};
@@ -932,9 +1167,15 @@ static void ind_check(const Json& c, Out& o) {
         w.frames = expand_framing(n, c.geti("fs" + sfx), c.geti("fa" + sfx), c.geti("fm" + sfx), c.getu("fseed" + sfx));
         const int cls = w.sp.classes[size_t(c.geti("cls" + sfx)) % w.sp.classes.size()];
         w.st = make_stream(w.sp.skind, n * w.sp.granule, c.getu("seed" + sfx), cls);
+        w.forms = get_forms(c, sfx);
+        if (w.sp.cuts) {   // segmented variants: a frame boundary at every switch position
+            const std::vector<int> cuts = w.sp.cuts(n);
+            if (!cuts.empty()) w.frames = refine(w.frames, cuts);
+            o.label(CUTMODE[w.sp.cutmode]);
+        }
     }
     // solo runs first (each instance is destroyed before the next one exists)
-    for (auto& w : v) w.solo = run_frames(w.sp, w.st, w.frames, true);
+    for (auto& w : v) w.solo = run_frames(w.sp, w.st, w.frames, w.forms);
     // interleaved run
     for (auto& w : v) { w.got = Chans(w.sp.chans.size()); if (!lazy) w.feed = w.sp.make(); }
     Rng r(mix(c.getu("oseed"), 0x1D7));
@@ -948,7 +1189,7 @@ static void ind_check(const Json& c, Out& o) {
         One& w = v[size_t(j)];
         if (!w.feed) w.feed = w.sp.make();
         const int len = w.frames[w.next] * w.sp.granule;
-        w.feed(w.st, w.pos, w.pos + len, int(w.next % 3), w.got);
+        w.feed(w.st, w.pos, w.pos + len, w.forms.at(w.next), w.got);
         w.pos += len;
         ++w.next;
         if (drop && w.next == w.frames.size()) w.feed = nullptr;   // destroy a finished instance while the others go on
@@ -957,7 +1198,8 @@ static void ind_check(const Json& c, Out& o) {
     }
     bool all_multi = true, all_nonzero = true, identical = true;
     for (auto& w : v) {
-        const CmpResult cr = compare("indep:", w.sp, w.solo, w.got, w.frames, o);
+        const CmpResult cr = compare("indep:", w.sp, w.solo, w.got, w.frames, o, "solo run");
+        form_labels(w.sp, w.frames, w.forms, o);
         all_multi &= w.frames.size() >= 2;
         all_nonzero &= cr.nonzero;
         identical &= cr.identical;
@@ -993,6 +1235,7 @@ static void ind_gen(Ctx& ctx) {
             const int n = pick_log(2, maxg);
             c.set("n" + sfx, n).set("fs" + sfx, pick(0, 4)).set("fa" + sfx, pick(0, 3)).set("fm" + sfx, pick_log(1, std::min(256, std::max(1, n / 2))));
             c.set("cls" + sfx, pick(0, 3)).set("fseed" + sfx, (long long)seed64()).set("seed" + sfx, (long long)seed64());
+            put_forms(c, pick(0, 3), 0, sfx);
         }
         return c;
     });
